@@ -517,6 +517,42 @@ def run_session6(case):
     return session.run_case(case, lambda: [coherent_monitor("session"), resample_law_monitor("session")], oracle=None, key_pred=lambda k: ":resample:" in k or k.startswith("session:copy"))
 
 
+def run_threads6(case):
+    """Two overlapping calls of systematic_resample (another thread of the user's program resamples too): every schedule with ONE preemption -
+    call A is interrupted before each of its library lines in turn, call B runs to completion, A resumes.  Both results must be what the calls
+    return when they do not overlap."""
+    from mc import threads
+    from tempest.tools import systematic_resample
+
+    res = Res()
+    wA = np.array(case["wA"], dtype=float)
+    wB = np.array(case["wB"], dtype=float)
+    nA, nB = case["nA"], case["nB"]
+
+    def h(t, *a, **k):
+        return 0.37 if not (a or k) else OwnedRandom.PASS
+
+    with OwnedRandom(0, handlers={"random": h, "random_sample": h, "rand": h}):
+        fA = lambda: np.asarray(systematic_resample(nA, wA / wA.sum())).tolist()
+        fB = lambda: np.asarray(systematic_resample(nB, wB / wB.sum())).tolist()
+        nlines, refA = threads.line_events(fA)
+        refB = fB()
+        for k in range(1, nlines + 1):
+            if case.get("k") is not None and case["k"] != k:
+                continue
+            rA, rB, where = threads.one_preemption(fA, fB, k)
+            res.evals += 1
+            res.trans += 1
+            res.outcome(("threads", nA, nB, k), nontrivial=True)
+            if rA != refA or rB != refB:
+                res.violate("threads:one-preemption", f"systematic_resample({nA}, {case['wA']}) interrupted before its library line #{k} ({where}) by a complete call systematic_resample({nB}, {case['wB']}) in another thread: "
+                            f"results {rA} / {rB}, without overlap {refA} / {refB}", dict(case, k=k))
+                break
+    res.states += nlines
+    res.traces += 1
+    return res
+
+
 def run_ladder6(case):
     """Scale ladder: weight vectors of 7e4 .. 2e5 entries (beyond any block / chunk size a refactoring would pick), n up to 2e5.  The exact
     rational partition is too expensive here; the oracle is the statement of the property itself evaluated in floating point with an explicit
@@ -633,7 +669,7 @@ def run_cross6(case):
     return session.run_cross_resume(case, lambda: [coherent_monitor("pipe", resumed=True), resample_law_monitor("pipe")], key_pred=lambda k: ":resample:" in k or "raises" in k)
 
 
-KINDS = {"ladder": run_ladder6, "cross": run_cross6, "sforms": run_sforms, "duo": run_duo6, "rsyst_full": run_rsyst_full, "session": run_session6, "syst": run_syst, "mult": run_mult, "rsyst": run_rsyst, "post": run_post}
+KINDS = {"threads": run_threads6, "ladder": run_ladder6, "cross": run_cross6, "sforms": run_sforms, "duo": run_duo6, "rsyst_full": run_rsyst_full, "session": run_session6, "syst": run_syst, "mult": run_mult, "rsyst": run_rsyst, "post": run_post}
 
 
 # ---------------------------------------------------------------------------------------------
@@ -724,6 +760,8 @@ def plan(ctx):
     full += [{"kind": "rsyst_full", "n": 3, "ws": ws[i::12][:: (1 if th else 3)], "beta": b} for b in (2.0 ** -14, 1e-5, 9.9e-5, 5e-324, 1.0) for i in range(12)]
     ctx.explore("resampler-call-site-partition", full)
     dy = [c for mm in (1, 2, 3, 4) for c in compositions(8, mm) if sum(c)]
+    ctx.explore("overlapping-calls-one-preemption", [{"kind": "threads", "nA": a, "wA": wa, "nB": b, "wB": wb} for a, wa, b, wb in
+                                                     ((8, [1, 1, 1, 1], 8, [4, 0, 0, 0]), (8, [4, 0, 0, 0], 8, [1, 1, 1, 1]), (5, [1, 2, 3], 9, [3, 2, 1, 0, 1]), (6, [0, 1, 0, 5], 6, [2, 2, 1, 1]))])
     ctx.explore("scale-ladder", [{"kind": "ladder", "m": m_, "n": n_} for m_, n_ in ((70001, 1000), (200000, 1000), (131073, 200000)) + (((1000003, 5000),) if th else ())])
     ctx.explore("input-forms-and-call-history", [{"kind": "sforms", "n": nn, "comps": dy[i::8]} for nn in ((1, 2, 3, 5, 8) if th else (1, 3, 5)) for i in range(8)])
     from mc import session as _sess
